@@ -57,6 +57,39 @@ def spec_concat(mode):
                   hints={'hstart1 = ': ['Nthread * N1 < Nthread * (N1 + N2)', '1 <= Nthread1 and Nthread1 <= Nthread - 1']})
 
 
+COLS = ('x', 'y', 'z', 'vx', 'vy', 'vz', 'mass')
+CONCAT_CALLEE = None
+
+
+def spec_assembly(tracers):
+    """the tail of gen_gals that glues centrals and satellites (slice from `HOD_dict_sat = ...` to `return HOD_dict`), under the
+    contract of fast_concatenate (proved above for every Nthread >= 1 and all lengths): for every requested tracer and column, the
+    output is the central column followed by the satellite column, Ncent = number of centrals, id = central ids then satellite ids.
+    Element types are abstracted to reals (only positions matter here)."""
+    from pyvc.engine import CalleeSpec
+    callee = CalleeSpec(['array1', 'array2', 'Nthread'], requires=['Nthread >= 1'],
+                        ensures=['len(result) == len(array1) + len(array2)', 'forall(q, 0, len(array1), result[q] == array1[q])',
+                                 'forall(q, 0, len(array2), result[len(array1) + q] == array2[q])'], result='arr:real[:]')
+    args = dict(tracers={t: None for t in tracers}, Nthread='int', verbose=False)
+    for t in ('LRG', 'ELG', 'QSO'):
+        for part in ('cent', 'sat'):
+            args[f'{t}_dict_{part}'] = {c: 'real[:]!ro' for c in COLS}
+    args['ID_dict_cent'] = {t: 'real[:]!ro' for t in ('LRG', 'ELG', 'QSO')}
+    args['ID_dict_sat'] = {t: 'real[:]!ro' for t in ('LRG', 'ELG', 'QSO')}
+    ens = [f'len(result) == {len(tracers)}']
+    for t in tracers:
+        ens.append(f'result["{t}"]["Ncent"] == len({t}_dict_cent["x"])')
+        ens.append(f'len(result["{t}"]) == {len(COLS) + 2}')
+        for c in COLS + ('id',):
+            cen = f'{t}_dict_cent["{c}"]' if c != 'id' else f'ID_dict_cent["{t}"]'
+            sat = f'{t}_dict_sat["{c}"]' if c != 'id' else f'ID_dict_sat["{t}"]'
+            ens += [f'len(result["{t}"]["{c}"]) == len({cen}) + len({sat})',
+                    f'forall(q, 0, len({cen}), result["{t}"]["{c}"][q] == {cen}[q])',
+                    f'forall(q, 0, len({sat}), result["{t}"]["{c}"][len({cen}) + q] == {sat}[q])']
+    return FnSpec(HOD, 'gen_gals', prop='C09', name='gen_gals.assembly[' + '+'.join(tracers) + ']', args=args, requires=['Nthread >= 1'], ensures=ens,
+                  slice=('HOD_dict_sat = ', 'return HOD_dict'), callees={'fast_concatenate': callee})
+
+
 def spec_concat_empty(which):
     req = ['len(array1) == 0' if which == 1 else 'len(array1) >= 1', 'len(array2) == 0' if which == 2 else 'len(array2) >= 0', 'Nthread >= 1']
     other = 'array2' if which == 1 else 'array1'
@@ -305,12 +338,15 @@ def check(run):
         run.prove(spec_concat(m))
     for w in (1, 2):
         run.prove(spec_concat_empty(w))
+    for w in itertools.product((True, False), repeat=3):
+        if any(w):
+            run.prove(spec_assembly(tuple(t for t, on in zip(('LRG', 'ELG', 'QSO'), w) if on)))
     from contracts import hodk
     hodk.prove_kernels(run, 'C09', run.tier)
     run.discharge()
     bounded(run, 'C09')
     run.extra['explanation'] = ('wrap, fast_concatenate and the two-pass kernels gen_cent / gen_sats (box and light-cone observer; tracer subsets x RSD x ranks; see contracts/hodk.py) proved by the E1 engine '
-                                'on the real ASTs; the gen_gals assembly and floating point are covered by the bounded stand-in '
+                                'on the real ASTs, and the assembly tail of gen_gals (centrals then satellites per column, Ncent, ids) under the fast_concatenate contract; the call sites of the two kernels inside gen_gals and floating point are covered by the bounded stand-in '
                                 '(run-time contract evaluation against a sequential reference), not proved')
     run.assumptions += ['occupation functions are "the package\'s mean-occupation functions": the reference calls the same compiled functions at the arguments the statement names',
                         'exact ties (random == slice edge) are unconstrained and avoided by redrawing', 'gen_sats_nfw (random draws) is outside the statement',
